@@ -635,3 +635,87 @@ def clean_axiom_accounting(ck):
     ax = sorted({a for t in ck.cov.get("theorems", []) for a in (t.get("axioms") or [])})
     ck.cov["axioms_used"] = ax
     return ax
+
+
+# ------------------------------------------------------------------ decision models (coq/Geom/Decisions.v) vs the C++
+def nominal_meshes(m):
+    """mesh name -> (verts, tris) with the nominal (outward) winding: a mesh flipped in the files is flipped back,
+    which is what the library's orientation repair arrives at"""
+    out = {}
+    for name, vs, ts in m["meshes"]:
+        if m["info"].get("flipped_mesh") == name: ts = [(a, c, b) for a, b, c in ts]
+        out[name] = (vs, ts)
+    return out
+
+def domain_wire(m, p):
+    """case line for `c02 1`: Geometry::domain(p) on the model's domain description"""
+    meshes = nominal_meshes(m); ifs = dict(m["interfaces"])
+    ints = [1, len(m["domains"])]; fl = list(p)
+    for dname, bs in m["domains"]:
+        ints.append(len(bs))
+        for sign, iname in bs:
+            oms = ifs[iname]; ints += [1 if sign < 0 else 0, len(oms)]
+            for osign, mname in oms:
+                vs, ts = meshes[mname]; ints += [1 if osign > 0 else -1, len(ts)]
+                for t in ts:
+                    for a in t: fl += list(vs[a])
+    return core.fcase("c02", ints, fl)
+
+def single_barrier_mesh(m):
+    """name of the only mesh scanned by dist_point_geom when the model has exactly one zero-conductivity domain bounded by
+    one interface made of one mesh (else None)"""
+    zs = [d for d, v in m["cond"].items() if v == 0.0]
+    if len(zs) != 1: return None
+    bs = dict(m["domains"])[zs[0]]
+    if len(bs) != 1: return None
+    oms = dict(m["interfaces"])[bs[0][1]]
+    return oms[0][1] if len(oms) == 1 else None
+
+def check_decision_models(ck, hb, cases):
+    """float instance of first_domain / argmin_first (extracted) against Geometry::domain and dist_point_geom"""
+    lines = []; wires = []; meta = []
+    for n, c in enumerate(cases):
+        lines.append("gains %s dec" % write_case(c, os.path.join(ck.workdir, "dm%d" % n)))
+    res = run_lines(hb, ck.workdir, lines, tag="decmodel")
+    klines = []; kmeta = []
+    for n, (c, r) in enumerate(zip(cases, res)):
+        dd = r.get("dec_domains")
+        if dd is None or dd.st: continue
+        pts = list(c["dip_pos"]) + list(c["points"])
+        for i, p in enumerate(pts):
+            wires.append(domain_wire(c["model"], p)); meta.append((n, i, int(dd.a[i])))
+        dn = r.get("dec_nearest"); mname = single_barrier_mesh(c["model"])
+        if dn is not None and dn.st == 0 and dn.nc == 8 and mname:
+            vs, ts = {nm: (v_, t_) for nm, v_, t_ in c["model"]["meshes"]}[mname]     # triangles as in the files (the repair flips signs, not triangles)
+            for e, q in enumerate(c["eeg"]):
+                if int(dn(e, 7)) != len(ts): continue
+                for t in ts: klines.append(kline(10, [], [x for a in t for x in vs[a]] + list(q)))
+                kmeta.append((n, e, len(ts), int(dn(e, 6))))
+    nd = na = bad = 0
+    if wires:
+        mo = core.run_model(wires)
+        for (n, i, impl), w, o in zip(meta, wires, mo):
+            z, _ = core.fparse(o); nd += 1
+            got = z[1] if z and len(z) > 1 else None
+            want = impl if impl >= 0 else -1
+            if got != want:
+                bad += 1
+                ck.violation("decision model: Geometry::domain differs", "model %d point %d: Geometry::domain gives domain %s, the model (Geom/Decisions.v first_domain, float instance) %s" % (n, i, impl, got),
+                             dict(kind="model", cases=[w], model=[o], impl=[impl],
+                                  note="correspondence break (the model of the decision no longer describes the code); the moved-problem runs of the same check are the search for an input on which the property itself fails"),
+                             found_input=False)
+    if klines:
+        rc, outs, err = core.run_harness(hb, klines, ck.workdir, tag="decmodel_k"); pos = 0; wl = []
+        for (n, e, nt, impl) in kmeta:
+            ds = [core.fparse(o)[1][0] for o in outs[pos:pos + nt]]; pos += nt
+            wl.append(core.fcase("c02", [2], ds))
+        mo = core.run_model(wl)
+        for (n, e, nt, impl), w, o in zip(kmeta, wl, mo):
+            z, _ = core.fparse(o); na += 1
+            if not z or len(z) < 2 or z[1] != impl:
+                bad += 1
+                ck.violation("decision model: nearest triangle differs", "model %d electrode %d: dist_point_geom picks triangle %d of the mesh, the model (argmin_first over the C++ distances) %s" % (n, e, impl, z),
+                             dict(kind="model", cases=[w], model=[o], impl=[impl],
+                                  note="correspondence break (the model of the scan no longer describes the code); the moved-problem runs of the same check are the search for an input on which the property itself fails"),
+                             found_input=False)
+    return dict(domain_lookups=nd, nearest_scans=na, mismatches=bad)
